@@ -1,3 +1,4 @@
 SPECIFICATION Spec
 CONSTANTS GuardReserved = TRUE
+  GuardNul = TRUE
 CHECK_DEADLOCK FALSE
